@@ -258,6 +258,221 @@ pub fn eval_sinks_history(cat: &Catalog, case: &Case) -> Evaluated {
     Evaluated { finding, outcome: last, meter: Meter::default() }
 }
 
+/// one primitive with its value, e.g. `varu32=16384`, `i64=-5`, `bytes=0a0b`, `compressed=00ff`
+fn write_prim<O: BinaryOutput>(o: &mut O, kind: &str, val: &str) {
+    match kind {
+        "u8" => o.write_u8(val.parse().unwrap()),
+        "i8" => o.write_i8(val.parse().unwrap()),
+        "u16" => o.write_u16(val.parse().unwrap()),
+        "i16" => o.write_i16(val.parse().unwrap()),
+        "u32" => o.write_u32(val.parse().unwrap()),
+        "i32" => o.write_i32(val.parse().unwrap()),
+        "u64" => o.write_u64(val.parse().unwrap()),
+        "i64" => o.write_i64(val.parse().unwrap()),
+        "u128" => o.write_u128(val.parse().unwrap()),
+        "i128" => o.write_i128(val.parse().unwrap()),
+        "f32" => o.write_f32(f32::from_bits(val.parse().unwrap())),
+        "f64" => o.write_f64(f64::from_bits(val.parse().unwrap())),
+        "varu32" => o.write_var_u32(val.parse().unwrap()),
+        "vari32" => o.write_var_i32(val.parse().unwrap()),
+        "bytes" => o.write_bytes(&model::unhex(val)),
+        "compressed" => {
+            let _ = o.write_compressed(&model::unhex(val), Default::default());
+        }
+        k => panic!("unknown primitive {k}"),
+    }
+}
+
+fn read_prim<I: BinaryInput>(i: &mut I, kind: &str, val: &str) -> String {
+    fn show<T: std::fmt::Display>(r: desert::Result<T>) -> String {
+        match r {
+            Ok(v) => v.to_string(),
+            Err(e) => format!("Err({e:?})"),
+        }
+    }
+    match kind {
+        "u8" => show(i.read_u8()),
+        "i8" => show(i.read_i8()),
+        "u16" => show(i.read_u16()),
+        "i16" => show(i.read_i16()),
+        "u32" => show(i.read_u32()),
+        "i32" => show(i.read_i32()),
+        "u64" => show(i.read_u64()),
+        "i64" => show(i.read_i64()),
+        "u128" => show(i.read_u128()),
+        "i128" => show(i.read_i128()),
+        "f32" => show(i.read_f32().map(|x| x.to_bits())),
+        "f64" => show(i.read_f64().map(|x| x.to_bits())),
+        "varu32" => show(i.read_var_u32()),
+        "vari32" => show(i.read_var_i32()),
+        "bytes" => show(i.read_bytes(val.len() / 2).map(model::hex)),
+        "compressed" => show(i.read_compressed().map(|b| model::hex(&b))),
+        k => panic!("unknown primitive {k}"),
+    }
+}
+
+/// clause `prim-roundtrip`: a program of primitive writes gives one byte stream through every sink
+/// (also through a serialization context, with and without a pushed chunk buffer) and an exact
+/// size; read back through every source it gives the written values and consumes exactly the
+/// bytes written.
+pub fn eval_prim_roundtrip(case: &Case) -> Evaluated {
+    let prog: Vec<(&str, &str)> = case
+        .expected
+        .as_deref()
+        .unwrap_or("")
+        .split(';')
+        .filter(|s| !s.is_empty())
+        .map(|s| s.split_once('=').unwrap())
+        .collect();
+    let mut finding = None;
+    let (out, _) = contain(1 << 24, || {
+        let mut a: Vec<u8> = Vec::new();
+        let mut b = bytes::BytesMut::new();
+        let mut c = desert::SizeCalculator::new();
+        let mut d = crate::catalog::RecordingSink::default();
+        let mut e = crate::catalog::PagedSink::new(3);
+        let mut ctx = desert::SerializationContext::new(Vec::new());
+        let mut ctx2 = desert::SerializationContext::new(Vec::new());
+        ctx2.push_buffer(Vec::new());
+        for (k, v) in &prog {
+            write_prim(&mut a, k, v);
+            write_prim(&mut b, k, v);
+            write_prim(&mut c, k, v);
+            write_prim(&mut d, k, v);
+            write_prim(&mut e, k, v);
+            write_prim(&mut ctx, k, v);
+            write_prim(&mut ctx2, k, v);
+        }
+        let buffered = ctx2.pop_buffer();
+        let direct = ctx2.into_output();
+        Ok((a, b.to_vec(), c.size(), d.data, e.contents(), ctx.into_output(), buffered, direct))
+    });
+    let bytes = match out {
+        Outcome::Ok((a, b, c, d, e, f, g, direct)) => {
+            for (name, x) in [("BytesMut", &b), ("recording output", &d), ("paged output", &e), ("SerializationContext", &f), ("SerializationContext with a pushed buffer", &g)] {
+                if *x != a {
+                    finding = Some(Finding { class: "sinks".into(), detail: format!("{name} wrote {} bytes, Vec<u8> wrote {} bytes", x.len(), a.len()) });
+                }
+            }
+            if finding.is_none() && !direct.is_empty() {
+                finding = Some(Finding { class: "sinks".into(), detail: format!("{} bytes bypassed the pushed buffer of the serialization context", direct.len()) });
+            }
+            if finding.is_none() && c != a.len() {
+                finding = Some(Finding { class: "sinks".into(), detail: format!("SizeCalculator reports {c} but {} bytes are written", a.len()) });
+            }
+            a
+        }
+        Outcome::Panic(m) => {
+            return Evaluated { finding: Some(Finding { class: "panic".into(), detail: m }), outcome: "panic", meter: Meter::default() };
+        }
+        _ => vec![],
+    };
+    if finding.is_none() {
+        for name in ["SliceInput", "OwnedInput", "DeserializationContext"] {
+            let results = RefCell::new(Vec::new());
+            let run = |i: &mut dyn FnMut(&str, &str) -> String, end: &mut dyn FnMut() -> bool| {
+                for (k, v) in &prog {
+                    results.borrow_mut().push(i(k, v));
+                }
+                end()
+            };
+            let (o, _) = contain(1 << 24, || {
+                Ok(match name {
+                    "SliceInput" => {
+                        let mut inp = SliceInput::new(&bytes);
+                        let p: *mut SliceInput = &mut inp;
+                        run(&mut |k, v| read_prim(unsafe { &mut *p }, k, v), &mut || unsafe { &mut *p }.read_u8().is_err())
+                    }
+                    "OwnedInput" => {
+                        let mut inp = OwnedInput::new(bytes.clone());
+                        let p: *mut OwnedInput = &mut inp;
+                        run(&mut |k, v| read_prim(unsafe { &mut *p }, k, v), &mut || unsafe { &mut *p }.read_u8().is_err())
+                    }
+                    _ => {
+                        let mut inp = DeserializationContext::new(&bytes);
+                        let p: *mut DeserializationContext = &mut inp;
+                        run(&mut |k, v| read_prim(unsafe { &mut *p }, k, v), &mut || unsafe { &mut *p }.read_u8().is_err())
+                    }
+                })
+            });
+            let got = results.into_inner();
+            for (i, (k, v)) in prog.iter().enumerate() {
+                let want = if *k == "bytes" || *k == "compressed" { v.to_string() } else { v.to_string() };
+                match got.get(i) {
+                    Some(g) if *g == want => {}
+                    g => {
+                        finding = Some(Finding {
+                            class: "value".into(),
+                            detail: format!("{name}: primitive {i} ({k}={}) read back as {:?}", crate::case::brief(v), g),
+                        });
+                        break;
+                    }
+                }
+            }
+            if finding.is_none() {
+                match o {
+                    Outcome::Ok(true) => {}
+                    Outcome::Ok(false) => finding = Some(Finding { class: "consumed".into(), detail: format!("{name}: bytes are left after reading back everything that was written") }),
+                    Outcome::Panic(m) => finding = Some(Finding { class: "panic".into(), detail: format!("{name}: {m}") }),
+                    _ => {}
+                }
+            }
+            if finding.is_some() {
+                break;
+            }
+        }
+    }
+    Evaluated { finding, outcome: "ok", meter: Meter::default() }
+}
+
+fn boundary_u32(rng: &mut Rng) -> u32 {
+    let k = *rng.pick(&[7u32, 14, 21, 28, 31]);
+    match rng.below(5) {
+        0 => (1u32 << k).wrapping_sub(1),
+        1 => 1u32 << k,
+        2 => (1u32 << k).wrapping_add(1),
+        3 => rng.next_u64() as u32,
+        _ => rng.below(300) as u32,
+    }
+}
+
+pub fn prim_program(rng: &mut Rng, n: usize) -> String {
+    let mut parts = Vec::new();
+    for _ in 0..n {
+        let p = match rng.below(16) {
+            0 => format!("u8={}", rng.next_u64() as u8),
+            1 => format!("i8={}", rng.next_u64() as i8),
+            2 => format!("u16={}", rng.next_u64() as u16),
+            3 => format!("i16={}", rng.next_u64() as i16),
+            4 => format!("u32={}", rng.next_u64() as u32),
+            5 => format!("i32={}", rng.next_u64() as i32),
+            6 => format!("u64={}", rng.next_u64()),
+            7 => format!("i64={}", rng.next_u64() as i64),
+            8 => format!("u128={}", ((rng.next_u64() as u128) << 64) | rng.next_u64() as u128),
+            9 => format!("f32={}", rng.next_u64() as u32),
+            10 => format!("f64={}", rng.next_u64()),
+            11 | 12 => format!("varu32={}", boundary_u32(rng)),
+            13 | 14 => {
+                // zig-zag: both signs around every width boundary
+                let m = boundary_u32(rng);
+                let v = ((m >> 1) as i32) ^ -((m & 1) as i32);
+                format!("vari32={v}")
+            }
+            _ => {
+                let len = rng.usize_below(12);
+                let b = rng.bytes(len);
+                if rng.chance(1, 3) {
+                    format!("compressed={}", model::hex(&b))
+                } else {
+                    format!("bytes={}", model::hex(&b))
+                }
+            }
+        };
+        parts.push(p);
+    }
+    parts.join(";")
+}
+
 fn case_hash(c: &Case) -> u64 {
     let mut h = mix(mix(fnv(c.read_as.as_bytes()), fnv(c.clause.as_bytes())), mix(fnv(&c.input), fnv(c.expected.as_deref().unwrap_or("").as_bytes())));
     for (n, x) in &c.batch {
@@ -342,6 +557,21 @@ pub fn run(cat: &Catalog, cfg: &Config, stats: &mut Stats, run_seed: u64) -> Vec
         c.fault = "sequence of writes through every sink; writes whose client codec reports an error fail half way".into();
         c.fault_kind = "failed-write".into();
         submit(c, stats, &trace);
+    }
+
+    // ---- primitives written through every sink and read back through every source ----------------
+    if cfg.focus == "C15" || cfg.focus == "C07" {
+        stats.events += 1;
+        let n = 1 + sw.usize_below(12);
+        let text = prim_program(&mut wl, n);
+        trace.push(format!("primitive program: {}", crate::case::brief(&text)));
+        let mut c = Case::new(&cfg.focus, "prim-roundtrip", "-", vec![]);
+        c.expected = Some(text);
+        c.fault = "primitives (boundary-biased varints) through all sinks and back through all sources".into();
+        submit(c, stats, &trace);
+        if cfg.focus == "C07" {
+            return violations;
+        }
     }
 
     // ---- sources: a program of primitive reads over a written, then cut, buffer -----------------
